@@ -171,6 +171,7 @@ CHECKS = {
             {"name": "close", "test": "TestClose", "quick": 350, "thorough": 3000, "shards": 16},
             {"name": "pairs", "test": "TestPairs", "quick": None, "thorough": None, "shards": 16, "enum": True},
             {"name": "close-rt", "test": "TestCloseRT", "quick": 150, "thorough": 1500, "shards": 16, "race": True},
+            {"name": "rpc-late-reply", "test": "TestLateReply", "quick": 24, "thorough": 300, "shards": 4},
         ],
     },
     "C15": {
